@@ -567,6 +567,14 @@ func init() {
 	reg("internal/bytealg.IndexByte", func(m *Machine, fr *frame, a []Value) Value {
 		return m.indexByte(sliceBytes(a[0].([]Value)), a[1].(*term.T))
 	})
+	reg("internal/bytealg.LastIndexByteString", func(m *Machine, fr *frame, a []Value) Value {
+		return m.lastIndexByte(m.sbytes(a[0]), a[1].(*term.T))
+	})
+	reg("internal/bytealg.LastIndexByte", func(m *Machine, fr *frame, a []Value) Value {
+		return m.lastIndexByte(sliceBytes(a[0].([]Value)), a[1].(*term.T))
+	})
+	reg("strings.LastIndexByte", intrinsics["internal/bytealg.LastIndexByteString"])
+	reg("bytes.LastIndexByte", intrinsics["internal/bytealg.LastIndexByte"])
 	reg("strings.IndexByte", intrinsics["internal/bytealg.IndexByteString"])
 	reg("bytes.IndexByte", intrinsics["internal/bytealg.IndexByte"])
 	reg("internal/bytealg.CountString", func(m *Machine, fr *frame, a []Value) Value {
@@ -824,6 +832,15 @@ func (m *Machine) timeTrunc(t TimeV, d *term.T, round bool) Value {
 func (m *Machine) indexByte(s []*term.T, c *term.T) Value {
 	for i, b := range s {
 		if m.condBool(m.tb.Eq(b, c), "indexbyte") {
+			return m.tb.BV(64, uint64(i))
+		}
+	}
+	return m.tb.BV(64, ^uint64(0))
+}
+
+func (m *Machine) lastIndexByte(s []*term.T, c *term.T) Value {
+	for i := len(s) - 1; i >= 0; i-- {
+		if m.condBool(m.tb.Eq(s[i], c), "lastindexbyte") {
 			return m.tb.BV(64, uint64(i))
 		}
 	}
